@@ -452,6 +452,8 @@ def selected_frame():
 
 
 def selected_thread():
+    if getattr(_sim, 'on_selected_thread', None) is not None:
+        _sim.on_selected_thread()
     return Thread(_sim.thread)
 
 
@@ -557,6 +559,7 @@ class SimState:
         self.commands = {}
         self.on_execute = None
         self.on_write = None
+        self.on_selected_thread = None
 
     def execute(self, command):
         if self.on_execute is not None:
